@@ -1,6 +1,6 @@
 ---------------------------- MODULE Trace_FilesFS ----------------------------
 (* Judges observations of the real scriggo.Files: one record per case
-     {id, files:[{n,d}], name, ops:[{op,n}], open:{err,perr,rdf}, res:[{op,n,err,data,ents,info}]}
+     {id, files:[{n,d}], name, open:{err,perr,rdf}, res:[{op,n,err, info | data | ents}]}
    The logged operation sequence is replayed through the REFERENCE machine of FilesFS (handle state
    advanced by the logged results) and every logged result must satisfy the contract.
    Mode = "judge"       the contract holds (property-level; the only source of verdicts)
@@ -27,17 +27,17 @@ KeepPerCause == 5
 VARIABLES l, nbad, nskip, bad, cnt
 Obs == ndJsonDeserialize("obs.ndjson")
 Init == l = 1 /\ nbad = 0 /\ nskip = 0 /\ bad = <<>> /\ cnt = <<>>
-Next == /\ l <= Len(Obs) /\ l' = l + 1
-        /\ LET r == Obs[l]
-               c == RecCause(r)
-               have == {j \in DOMAIN cnt : cnt[j].cause = c} IN
-           /\ nskip' = nskip + (IF Defined(r) THEN 0 ELSE 1)
+\* (r, c, have are operator arguments, not LET definitions: TLC evaluates an argument once)
+Walk(r, c, have) ==
+           /\ nskip' = nskip + (IF c = "" /\ ~Defined(r) THEN 1 ELSE 0)
            /\ nbad' = nbad + (IF c = "" THEN 0 ELSE 1)
            /\ cnt' = IF c = "" THEN cnt
                      ELSE IF have = {} THEN Append(cnt, [cause |-> c, count |-> 1])
                      ELSE [j \in DOMAIN cnt |-> IF j \in have THEN [cause |-> c, count |-> cnt[j].count + 1] ELSE cnt[j]]
            /\ bad' = IF c # "" /\ (have = {} \/ \A j \in have : cnt[j].count < KeepPerCause)
                      THEN Append(bad, [k |-> l, id |-> r.id, sig |-> Sig(c)]) ELSE bad
+WalkC(r, c) == Walk(r, c, {j \in DOMAIN cnt : cnt[j].cause = c})
+Next == l <= Len(Obs) /\ l' = l + 1 /\ WalkC(Obs[l], RecCause(Obs[l]))
 Done == l = Len(Obs) + 1 =>
           /\ ndJsonSerialize("stats.ndjson", <<[n |-> Len(Obs), nbad |-> nbad, ref_undefined |-> nskip, causes |-> cnt]>>)
           /\ ndJsonSerialize("bad.ndjson", bad)
